@@ -30,4 +30,20 @@ func keepNewest(a, b Entry) Entry {
 	return b
 }
 
+// WithoutDeletes drops the deleted entries (tombstones) from a sequence. It must
+// only be applied after every source that may hold an older version of a key
+// has been merged, otherwise the tombstone can't mask that older version.
+func WithoutDeletes(entries iter.Seq[Entry]) iter.Seq[Entry] {
+	return func(yield func(Entry) bool) {
+		for entry := range entries {
+			if entry.IsDelete() {
+				continue
+			}
+			if !yield(entry) {
+				return
+			}
+		}
+	}
+}
+
 var ErrNotFound = errors.New("NotFound")
